@@ -123,7 +123,14 @@ impl RouterProxy {
     {
         self.add_route(
             ipc_receiver.to_opaque(),
-            Box::new(move |message| drop(crossbeam_sender.send(message.to::<T>().unwrap()))),
+            // A message that does not decode as `T` is dropped together with whatever it carries:
+            // a `Sender<T>` has no way to report it, and it must not panic the router thread,
+            // which would take every other route of the process down with it.
+            Box::new(move |message| {
+                if let Ok(message) = message.to::<T>() {
+                    drop(crossbeam_sender.send(message));
+                }
+            }),
         )
     }
 
